@@ -38,7 +38,16 @@ func init() {
 	register(&PropDef{ID: "C01", Plan: func(t string) Plan { return histPlanAudit(t, histRule) }, Run: func(h *Harness) {
 		histOrAudit(h, histCfg{prop: "C01", strictBias: 30, withOCSP: true, faulty: true, histLen: 6}, "C01.")
 	}})
-	register(&PropDef{ID: "C10", Plan: func(t string) Plan { return histPlan(t, histRule) }, Run: func(h *Harness) {
+	register(&PropDef{ID: "C10", Plan: func(t string) Plan {
+		p := histPlan(t, histRule+"; the last 30 (thorough: 400) runs are concurrent-strictness scenarios: 2-5 overlapping strict handshakes for one distribution point while its origin fails or stalls (6 failure kinds x backend x fetch mode), then while the first good delivery is slow, under seeded preemption")
+		p.Runs += strictConcRuns(t)
+		return p
+	}, Run: func(h *Harness) {
+		if base := histPlan(h.Tier, "").Runs; h.Idx >= base {
+			ownPrefix = "C10."
+			runStrictConcurrent(h, h.Idx-base)
+			return
+		}
 		runCRLHistoryOwned(h, histCfg{prop: "C10", strictBias: 60, faulty: true, histLen: 6}, "C10.")
 	}})
 	register(&PropDef{ID: "C11", Plan: func(t string) Plan { return histPlanAudit(t, histRule) }, Run: func(h *Harness) {
